@@ -500,7 +500,7 @@ int bufr_getstring( BUFR_Message *bufr, char *str, int len)
    {
    int        i;
    uint64_t   c;
-   int        errcode;
+   int        errcode = 0;
 
    for ( i = 0 ; i < len ; i++ )
       {
